@@ -73,7 +73,8 @@ def summarize(res):
             'reason': res.reason, 'paths': res.paths, 'time': round(res.time, 3),
             'solver_time': round(res.solver_time, 3), 'sha256': res.source_sha, 'file': res.file,
             'line': res.line, 'inlined': res.inlined, 'called_contracts': res.called_contracts,
-            'lemmas': res.used_lemmas, 'obs': obs, 'kind': res.kind, 'reachable_exits': res.reachable_exits}
+            'lemmas': res.used_lemmas, 'obs': obs, 'kind': res.kind, 'reachable_exits': res.reachable_exits,
+            'arbiter_dropped': getattr(res, 'arbiter_dropped', 0)}
 
 
 def safe_str(o):
@@ -108,6 +109,35 @@ def worker(job):
                 'reason': 'worker crashed: ' + traceback.format_exc()[-1500:], 'paths': 0, 'time': 0,
                 'solver_time': 0, 'sha256': '', 'file': '', 'line': 0, 'inlined': [], 'called_contracts': [],
                 'lemmas': [], 'obs': [], 'kind': kind, 'reachable_exits': 0}
+
+
+ARBITER_UNROLL = int(os.environ.get('PYVC_ARBITER_UNROLL', '3'))
+
+
+def arbiter_worker(job):
+    """Second opinion on a unit whose proof failed without a replayable counterexample: the same contract on the same
+    source, but every loop under a loop contract is UNROLLED (at most ARBITER_UNROLL iterations, longer paths dropped)
+    instead of being summarised by its invariant.  No invariant, hint or variant of the loop takes part, so a
+    postcondition refuted here is refuted on a real path of the code, and a run that discharges everything shows that
+    no input needing at most that many iterations violates the contract (all values symbolic) - a BOUNDED statement."""
+    prop, unit_name, config_name, budget, where = job
+    try:
+        load_modules(prop)
+        cd = find_cdef(unit_name)
+        cfgs = verify.chain_configs() if verify.parsed(cd).options.get('chains') else [None]
+        base = (config_name or '').split('#')[0]
+        cfg = {}
+        for c in cfgs:
+            if c and c.get('name') == base:
+                cfg = dict(c)
+        cfg['arbiter_unroll'] = ARBITER_UNROLL
+        cfg['unit_budget_s'] = budget
+        cfg['arbiter_where'] = list(where)
+        res = verify.run_unit(cd, cfg, callee_contracts=callee_map(prop))
+        return summarize(res)
+    except Exception:
+        return {'name': unit_name, 'config': config_name, 'status': 'undecided', 'obs': [],
+                'reason': 'arbiter crashed: ' + traceback.format_exc()[-800:], 'arbiter_dropped': 0, 'paths': 0, 'time': 0}
 
 
 def jobs_for(prop):
@@ -185,7 +215,10 @@ def main(argv):
     if prop not in PROPS:
         print('unknown property', prop)
         return 3
-    os.makedirs(os.path.join(VERIF, 'evidence'), exist_ok=True)
+    # evidence of runs against a scratch tree (PYVC_REPO set by tools/try_seed.sh) goes to a scratch directory so that
+    # the committed evidence always describes /repo
+    evdir = os.environ.get('PYVC_EVIDENCE_DIR') or os.path.join(VERIF, 'evidence')
+    os.makedirs(evdir, exist_ok=True)
     os.makedirs(os.path.join(VERIF, 'replays'), exist_ok=True)
     if tier == 'thorough':
         # deeper tier: three times the solver budget per obligation, four times the wall-clock budget per unit,
@@ -275,6 +308,7 @@ def main(argv):
     lines = []
     # violations: replay against the real code
     reported = set()
+    records = []
     for (r, o) in violations:
         key = (r['name'], o['kind'], o['descr'])
         if key in reported:
@@ -298,6 +332,74 @@ def main(argv):
                 if inp is o['inputs']:
                     rp['replay_of_model'] = out
         rp['real_result'] = confirmed
+        records.append([r, o, rp, confirmed, key])
+    # arbiter: a contract unit whose failed obligations gave no input that fails on the real code gets a second
+    # opinion with its loops unrolled instead of summarised (see arbiter_worker)
+    proof_broken = []
+    need = {}
+    for rec in records:
+        r = rec[0]
+        if r['kind'] == 'contract':
+            need.setdefault((r['name'], r['config'].split('#')[0]), []).append(rec)
+    need = {k: v for k, v in need.items() if not any(rec[3] for rec in v)}
+    if need and not os.environ.get('PYVC_NO_ARBITER'):
+        budget = 240 if tier == 'quick' else 1800
+        with multiprocessing.Pool(min(nproc, len(need))) as pool:
+            loopk = ('inv-entry', 'inv-preserve', 'decreases', 'body-post', 'body-raises')
+            arbs = pool.map(arbiter_worker, [(prop, u, c, budget, sorted({rec[1]['where'] for rec in need[(u, c)]
+                                                                            if rec[1]['kind'] in loopk}))
+                                             for (u, c) in need], chunksize=1)
+        for (u, c), a in zip(list(need), arbs):
+            recs = need[(u, c)]
+            nref = [o for o in a['obs'] if o['status'] == 'refuted']
+            note = {'unroll': ARBITER_UNROLL, 'status': a['status'], 'reason': a.get('reason', '')[:300],
+                    'paths': a.get('paths'), 'dropped_paths_over_bound': a.get('arbiter_dropped', 0),
+                    'obligations': len(a['obs']), 'refuted': len(nref), 'time_s': a.get('time')}
+            for rec in recs:
+                rec[2]['arbiter'] = note
+            if a['status'] == 'proved' and a['obs']:
+                cd = find_cdef(u)
+                nsi = 300 if tier == 'quick' else 5000
+                bad, ran = bounded_standin(cd, c or None, rng, nsi)
+                note['generated_inputs'] = ran
+                if not bad:
+                    proof_broken.append({'unit': u, 'config': c, 'failed_obligations': [rec[2]['obligation'][:200] for rec in recs],
+                                         'arbiter': note})
+                    print('  PROOF-BROKEN unit %s %s: %d obligation(s) of the loop-contract proof no longer discharge (first: %s) '
+                          'and no counterexample replays; with the loops unrolled up to %d iterations all %d obligations '
+                          'discharge (%d longer paths dropped) and %d generated inputs satisfy the contract on the real code: '
+                          'reported as undecided/bounded, not as a violation'
+                          % (u, c, len(recs), recs[0][2]['obligation'][:120], ARBITER_UNROLL, len(a['obs']),
+                             a.get('arbiter_dropped', 0), ran))
+                    for rec in recs:
+                        rec.append('rescued')
+                else:
+                    out = bad[0]
+                    for rec in recs[:1]:
+                        rec[3] = out
+                        rec[2]['input'] = out.get('inputs')
+                        rec[2]['real_result'] = out
+            elif nref:
+                # refuted without any loop contract involved: try to replay these models as well
+                for o2 in nref:
+                    if o2.get('inputs') is None:
+                        continue
+                    for inp in [o2['inputs']] + neighbours(o2['inputs'], rng, 100):
+                        try:
+                            out = replay_inputs(u, inp, c or None)
+                        except Exception as e:
+                            out = {'verdict': 'error', 'detail': repr(e)}
+                        if out.get('verdict') == 'violation':
+                            recs[0][3] = out
+                            recs[0][2]['input'] = inp
+                            recs[0][2]['real_result'] = out
+                            break
+                    if recs[0][3]:
+                        break
+    for rec in records:
+        r, o, rp, confirmed, key = rec[:5]
+        if len(rec) > 5:
+            continue
         fname = os.path.join(VERIF, 'replays', '%s_%s.json' % (prop, hashlib.sha1(repr(key).encode()).hexdigest()[:10]))
         with open(fname, 'w') as f:
             json.dump(rp, f, indent=1, default=safe_str)
@@ -374,7 +476,7 @@ def main(argv):
     for l in lines:
         print(l)
     wall = time.time() - t0
-    level = 'proof' if (not undecided and not problems and PROPS[prop].get('level', 'proof') == 'proof') else \
+    level = 'proof' if (not undecided and not proof_broken and not problems and PROPS[prop].get('level', 'proof') == 'proof') else \
         PROPS[prop].get('level', 'other') if not undecided else 'other'
     cov = {
         'obligations': n_obs, 'discharged': n_dis,
@@ -390,6 +492,7 @@ def main(argv):
         'by_backend': by_backend, 'solver_time_s': round(solver_time, 2),
         'samples': samples, 'bounded_standins': standin,
         'undecided_units': [r['name'] + ' ' + r['config'] for r in undecided],
+        'proof_broken_units': proof_broken,
         'explanation': PROPS[prop].get('explanation', ''),
         'evaluations': max(1, n_obs), 'distinct_nontrivial': max(2, len({(o['kind'], o['descr']) for r in results for o in r['obs']})),
         'rule': 'one case per generated proof obligation (path condition => goal); distinct = distinct (kind, text)',
@@ -398,7 +501,7 @@ def main(argv):
     ev = {'property_id': prop, 'tier': tier, 'seed': seed, 'level': level, 'coverage': cov,
           'assumptions': PROPS[prop].get('assumptions', []) + ['ASSUMED (unproved) contract used at call sites: %s' % a for a in sorted(assumed_used)], 'wall_s': round(wall, 2),
           'violations': len(lines)}
-    with open(os.path.join(VERIF, 'evidence', '%s.json' % prop), 'w') as f:
+    with open(os.path.join(evdir, '%s.json' % prop), 'w') as f:
         json.dump(ev, f, indent=1, default=safe_str)
     print('%s %s: %d units, %d obligations, %d discharged, %d refuted, %d undecided units, %.1fs' % (
         prop, tier, len(results), n_obs, n_dis, len(reported), len(undecided), wall))
@@ -417,6 +520,9 @@ def bounded_standin(cd, chain, rng, n):
 
     def _alarm(sig, frm):
         raise _TO()
+    # half-built library objects dropped by the harness (copies of keys) make CPython print 'Exception ignored in
+    # __del__' to stderr; that is noise of the harness, not an outcome
+    old_hook, sys.unraisablehook = sys.unraisablehook, (lambda *a: None)
     old = signal.signal(signal.SIGALRM, _alarm)
     t_end = time.time() + (60 if n <= 300 else 600)
     for _ in range(n):
@@ -436,6 +542,7 @@ def bounded_standin(cd, chain, rng, n):
             bad.append(out)
             break
     signal.signal(signal.SIGALRM, old)
+    sys.unraisablehook = old_hook
     return bad, ran
 
 
